@@ -79,7 +79,7 @@ def tq_post(o, n, r, loc):
             ('result_is_numpy_select_over_those_masks_then_the_label_of_the_missing_rows', RT.proj(1, r) == OpqAsList(fin))]
 SPECS['transform_quantitative_feature'] = FunctionSpec(qual='transform_quantitative_feature', file=FILE,
     params=[('feature', VAL), ('df_feature', OPQ), ('values_orders', DVG), ('str_nan', VAL), ('labels_per_values', LPV), ('x_len', INT)], returns=TTuple([VAL, LVAL]),
-    requires=tq_req, raises={'AssertionError': tq_raises}, opaque_functions={'select', 'isna'},
+    requires=tq_req, raises={'AssertionError': tq_raises}, opaque_functions={'select', 'isna', 'isfinite', 'isnan', 'isnull', 'notna'},
     locals={'values_to_group': LOPQ, 'group_labels': LLV},
     ensures=tq_post,
     note='masks / labels characterised as SETS (membership both ways); that the i-th mask is paired with the i-th label list and that masks follow the fitted order is bounded (engine R, C03 / C04)')
